@@ -897,8 +897,13 @@ def subset_masks(system, tier_quick, restrict_large):
             masks = [m for m in range(1 << n) if abs(pc(m) - d) <= 2]
             return masks, f"|S| within 2 of {d} ({len(masks)} of {1 << n})", False
         return list(range(1 << n)), f"all {1 << n}", True
-    if system in SMALL_SYSTEMS:
+    if system in SMALL_SYSTEMS and system != "orthorhombic":
         return list(range(1 << n)), f"all {1 << n}", True
+    if system == "orthorhombic":
+        # no dependent component: every proper subset is insufficient and nothing is redundant; quick keeps the layers
+        # next to the full set (thorough: all 512)
+        masks = [m for m in range(1 << n) if pc(m) >= n - 2]
+        return masks, f"|S| in {n - 2}..{n} ({len(masks)} of {1 << n})", False
 
     def near(m):
         return t[m] == d or any(t[m | 1 << k] == d for k in range(n) if not m >> k & 1)
@@ -1000,8 +1005,11 @@ def explore(ctx):
     # ---- B
     bound = 2 if quick else 3
     cases, seen, edges = [], set(), 0
+    # quick: one deviation for every system, two deviations for five of them (one per family of relation structure:
+    # equalities only / with the c66 combination / sign relations / zeros only / none); thorough: three for all nine
+    pair_systems = ("cubic", "hexagonal", "trigonal7", "monoclinic", "triclinic")
     for s in L.SYSTEMS:
-        for cfg, k in lattice(DIMS, bound):
+        for cfg, k in lattice(DIMS, bound if (not quick or s in pair_systems) else 1):
             c = dict(cfg)
             c.update({"what": "lattice", "system": s})
             c = canon_lattice(c, subsets)
@@ -1016,6 +1024,7 @@ def explore(ctx):
     res = ctx.run(MOD, "run_case", cases, part="presentation-lattice", transitions=edges)
     full, _ = lattice_size(DIMS, None)
     done, _ = lattice_size(DIMS, bound)
+    ctx.notes["lattice_quick_rule"] = f"two deviations for {list(pair_systems)}, one for the other systems" if quick else "three deviations, all systems"
     ctx.notes["lattices"] = [{"part": "presentation-lattice", "dims": {k: len(v) for k, v in DIMS.items()}, "bound": bound,
                               "configs_in_bound_per_system": done, "full_product_per_system": full,
                               "distinct_applicable_all_systems": len(cases)}]
